@@ -20,9 +20,11 @@ import (
 type RetKind int
 
 const (
-	RetErr    RetKind = iota // func(...) error                -> Go.R Unit
-	RetValErr                // func(...) (T, error)            -> Go.R T
-	RetVal                   // func(...) T                     -> T
+	RetErr     RetKind = iota // func(...) error                -> Go.R Unit
+	RetValErr                 // func(...) (T, error)            -> Go.R T
+	RetVal                    // func(...) T                     -> T
+	RetVoid                   // func(w, ...)  (writer function without result)      -> W
+	RetHandler                // func(...) http.HandlerFunc { ...; return func(w, r) {...} }   -> W
 )
 
 // OutParam: the Go callee writes through a pointer argument; its Lean twin returns the new value.
@@ -38,20 +40,27 @@ var outParams = map[string]OutParam{
 	"CheckSignature":                 {3, true},
 	"ValidateRefreshTokenScopes":     {1, true},
 	"CopyRequestObjectToAuthRequest": {0, true},
+	"c.securecookie.Decode":          {2, false},
 }
 
 type FuncSpec struct {
-	File     string            // path relative to repo root
-	Name     string            // Go name, "Recv.Name" for methods
-	Lean     string            // Lean definition name
-	Params   []string          // Lean binders, e.g. "(claims : Claims)"; `now` is always first
-	Ret      RetKind           //
-	RetType  string            // Lean type of the value (RetValErr / RetVal)
-	Rename   map[string]string // Go identifier -> Lean expression (parameters, package values)
-	NilValue []string          // identifiers that denote "the zero value" in `return zero, err`
-	WrapOk   string            // RetValErr: constructor applied to the value of `return v, nil`
-	WrapBoth string            // RetValErr: constructor applied to (v, err) of `return v, err` with non-zero v
-	RetParam string            // RetErr function that mutates this pointer parameter: `return nil` yields its final value
+	File      string            // path relative to repo root
+	Name      string            // Go name, "Recv.Name" for methods
+	Lean      string            // Lean definition name
+	Params    []string          // Lean binders, e.g. "(claims : Claims)"; `now` is always first
+	Ret       RetKind           //
+	RetType   string            // Lean type of the value (RetValErr / RetVal)
+	Rename    map[string]string // Go identifier -> Lean expression (parameters, package values)
+	NilValue  []string          // identifiers that denote "the zero value" in `return zero, err`
+	WrapOk    string            // RetValErr: constructor applied to the value of `return v, nil`
+	WrapBoth  string            // RetValErr: constructor applied to (v, err) of `return v, err` with non-zero v
+	ValueOnly bool              // the theorems concern the returned VALUE only: append to a caller's slice is read functionally (aliasing is C20's subject)
+	RetParam  string            // RetErr function that mutates this pointer parameter: `return nil` yields its final value
+	// Writer: name of the http.ResponseWriter parameter. The Lean twin threads it as a value (an effect log):
+	// every call that mentions it (or whose callee is listed in Effectful) returns the new writer first -
+	// `W` for a void callee, `W × Go.R T` for an error-returning one - and so does the function itself.
+	Writer    string
+	Effectful []string // callees (Go names) that act on the outside world without being handed the writer
 }
 
 type tr struct {
@@ -59,7 +68,21 @@ type tr struct {
 	fset       *token.FileSet
 	unsup      []string
 	indent     int
-	errInScope bool // inside a `.error err =>` branch
+	errInScope bool            // inside a `.error err =>` branch
+	fresh      map[string]bool // slice variables known to own their backing array (make / literal)
+	inClosure  bool            // RetHandler: inside the returned handler closure
+	declared   map[string]bool // variables declared in the function (closure) being translated: `=` to anything else is shared state
+}
+
+func (t *tr) declareFields(fl *ast.FieldList) {
+	if fl == nil {
+		return
+	}
+	for _, f := range fl.List {
+		for _, n := range f.Names {
+			t.declared[n.Name] = true
+		}
+	}
 }
 
 func (t *tr) bad(reason string, n ast.Node) string {
@@ -150,7 +173,19 @@ var pkgMap = map[string]string{
 	"strings.Contains": "Go.strContains", "strings.TrimSpace": "Go.trimSpace",
 	"str.Contains": "Go.contains", "bytes.Equal": "Go.bytesEqual",
 	"oidc.FromTime": "Go.fromTime", "FromTime": "Go.fromTime",
-	"time.Time{}": "Go.zeroTime",
+	"time.Time{}":    "Go.zeroTime",
+	"http.SetCookie": "Http.SetCookie", "http.Redirect": "Http.Redirect", "http.Error": "Http.Error",
+	"http.StatusFound": "Http.StatusFound", "http.StatusUnauthorized": "Http.StatusUnauthorized",
+}
+
+// Go struct types whose keyed composite literals are rendered as Lean structure instances
+var typeMap = map[string]string{
+	"http.Cookie": "Http.Cookie",
+}
+
+// named function / slice types whose conversion T(x) is the identity in the model
+var identityConversions = map[string]bool{
+	"AuthURLOpt": true, "CodeExchangeOpt": true, "URLParamOpt": true,
 }
 
 func (t *tr) ident(name string) string {
@@ -283,6 +318,28 @@ func (t *tr) expr(e ast.Expr) string {
 			}
 			return "(" + r + " " + strings.Join(vals, " ") + ")"
 		}
+		if lt, ok := typeMap[exprString(x.Type)]; ok && len(x.Elts) > 0 {
+			var fs []string
+			for _, e := range x.Elts {
+				kv, ok := e.(*ast.KeyValueExpr)
+				if !ok {
+					return t.bad("positional composite literal "+tn, x)
+				}
+				fs = append(fs, exprString(kv.Key)+" := "+t.expr(kv.Value))
+			}
+			return "({ " + strings.Join(fs, ", ") + " } : " + lt + ")"
+		}
+		if at, ok := x.Type.(*ast.ArrayType); ok && at.Len == nil {
+			// slice literal []T{a, b}
+			var vs []string
+			for _, e := range x.Elts {
+				if _, isKV := e.(*ast.KeyValueExpr); isKV {
+					return t.bad("keyed slice literal", x)
+				}
+				vs = append(vs, t.expr(e))
+			}
+			return "[" + strings.Join(vs, ", ") + "]"
+		}
 		return t.bad("composite literal "+tn, x)
 	case *ast.IndexExpr:
 		if _, isCall := x.X.(*ast.CallExpr); !isCall {
@@ -350,6 +407,23 @@ func (t *tr) call(c *ast.CallExpr) string {
 		fun = ix.X
 	}
 	full := exprString(fun)
+	if _, ok := fun.(*ast.ArrayType); ok && len(c.Args) == 1 {
+		return t.expr(c.Args[0]) // []byte(x), []string(x): conversions are the identity in the model
+	}
+	if identityConversions[full] && len(c.Args) == 1 {
+		return t.expr(c.Args[0])
+	}
+	if full == "append" && len(c.Args) >= 2 && !c.Ellipsis.IsValid() {
+		// functional reading of append is only sound when the slice owns its backing array
+		if id, ok := c.Args[0].(*ast.Ident); (!ok || !t.fresh[id.Name]) && !t.spec.ValueOnly {
+			return t.bad("append to a slice that may share its backing array", c)
+		}
+		out := t.expr(c.Args[0])
+		for _, a := range c.Args[1:] {
+			out = "(Go.append " + out + " " + t.expr(a) + ")"
+		}
+		return out
+	}
 	switch full {
 	case "time.Now":
 		return "now"
@@ -389,6 +463,9 @@ func (t *tr) call(c *ast.CallExpr) string {
 		if identityMethods[m] && len(c.Args) == 0 {
 			return recv
 		}
+		if m == "WithContext" && len(c.Args) == 1 {
+			return recv // r.WithContext(ctx): contexts are not modelled
+		}
 		if lf, ok := methodMap[m]; ok {
 			if len(c.Args) == 0 {
 				return "(" + lf + " " + recv + ")"
@@ -399,7 +476,7 @@ func (t *tr) call(c *ast.CallExpr) string {
 		if len(c.Args) == 0 {
 			return "((" + recv + ")." + m + ")"
 		}
-		return "((" + recv + ")." + m + " " + t.args(c.Args) + ")"
+		return "((" + recv + ")." + m + " " + t.argsOf(full, c.Args) + ")"
 	}
 	if id, ok := fun.(*ast.Ident); ok {
 		// same-package function or function-typed parameter
@@ -453,6 +530,7 @@ func (t *tr) errValue(e ast.Expr) string {
 				s, _ := strconv.Unquote(lit.Value)
 				return leanStr("error:" + s)
 			}
+			return leanStr("error:<dynamic message>") // errors.New(a + b): the text carries no decision
 		}
 		// oidc.ErrInvalidRequest().WithDescription(...)  ->  "ErrInvalidRequest"
 		cur := ast.Expr(x)
@@ -505,7 +583,89 @@ func (t *tr) isNilValue(e ast.Expr) bool {
 	return false
 }
 
+// isWriterCall: does this call act on the threaded response writer / outside world?
+func (t *tr) isWriterCall(e ast.Expr) bool {
+	c, ok := e.(*ast.CallExpr)
+	if !ok || t.spec.Writer == "" {
+		return false
+	}
+	for _, a := range c.Args {
+		if id, ok := a.(*ast.Ident); ok && id.Name == t.spec.Writer {
+			return true
+		}
+	}
+	fun := c.Fun
+	if ix, ok := fun.(*ast.IndexExpr); ok {
+		fun = ix.X
+	}
+	name := exprString(fun)
+	for _, e := range t.spec.Effectful {
+		if e == name {
+			return true
+		}
+	}
+	return false
+}
+
+// wpat wraps a result pattern / result value with the writer when the call (or function) threads one.
+func (t *tr) wpat(call ast.Expr, inner string) string {
+	if t.isWriterCall(call) {
+		return "(" + t.spec.Writer + ", " + inner + ")"
+	}
+	return inner
+}
+
+func usesIdent(n ast.Node, name string) bool {
+	found := false
+	ast.Inspect(n, func(m ast.Node) bool {
+		if id, ok := m.(*ast.Ident); ok && id.Name == name {
+			found = true
+		}
+		return !found
+	})
+	return found
+}
+
+// zeroBind: in Go the value variable of `x, err := f()` holds the zero value in the error branch
+// (all translated callees return zero values next to an error); bind it when the branch reads it.
+func (t *tr) zeroBind(body ast.Node, v string) string {
+	if v == "" || v == "_" || !usesIdent(body, v) {
+		return ""
+	}
+	return "let " + t.ident(v) + " := default;\n" + t.pad()
+}
+
 func (t *tr) ret(r *ast.ReturnStmt) string {
+	if t.spec.Writer != "" {
+		switch t.spec.Ret {
+		case RetVoid, RetHandler:
+			if len(r.Results) == 0 && (t.spec.Ret == RetVoid || t.inClosure) {
+				return t.spec.Writer
+			}
+			if t.spec.Ret == RetHandler && !t.inClosure && len(r.Results) == 1 {
+				if fl, ok := r.Results[0].(*ast.FuncLit); ok {
+					ps := fl.Type.Params.List
+					if len(ps) != 2 || len(ps[0].Names) != 1 || ps[0].Names[0].Name != t.spec.Writer || len(ps[1].Names) != 1 || ps[1].Names[0].Name != "r" {
+						return t.bad("handler closure parameters", fl)
+					}
+					t.inClosure = true
+					t.declared = map[string]bool{} // variables of the enclosing function are shared between requests
+					t.declareFields(fl.Type.Params)
+					w := t.spec.Writer
+					body := t.block(fl.Body.List, func() string { return w })
+					t.inClosure = false
+					return body
+				}
+			}
+			return t.bad("return in writer function", r)
+		default:
+			return "(" + t.spec.Writer + ", " + t.ret0(r) + ")"
+		}
+	}
+	return t.ret0(r)
+}
+
+func (t *tr) ret0(r *ast.ReturnStmt) string {
 	if t.spec.Ret == RetVal && len(r.Results) == 0 && t.spec.RetParam != "" {
 		return t.spec.RetParam
 	}
@@ -622,7 +782,13 @@ func (t *tr) block(stmts []ast.Stmt, k cont) string {
 		if gd, ok := x.Decl.(*ast.GenDecl); ok {
 			for _, sp := range gd.Specs {
 				vs, ok := sp.(*ast.ValueSpec)
-				if !ok || len(vs.Values) != 0 || vs.Type == nil {
+				if !ok {
+					continue
+				}
+				for _, n := range vs.Names {
+					t.declared[n.Name] = true
+				}
+				if len(vs.Values) != 0 || vs.Type == nil {
 					continue
 				}
 				zero := ""
@@ -658,6 +824,10 @@ func (t *tr) block(stmts []ast.Stmt, k cont) string {
 				name := strings.TrimPrefix(exprString(c.Args[op.Index]), "&")
 				return "let " + t.ident(name) + " := " + t.expr(c) + ";\n" + t.pad() + rest()
 			}
+			// effect on the threaded writer:  f(w, a)  ->  let w := f w a
+			if t.isWriterCall(c) {
+				return "let " + t.spec.Writer + " := " + t.expr(c) + ";\n" + t.pad() + rest()
+			}
 			// mutator method on a model value: recv.SetX(a)  ->  let recv := recv.SetX a
 			if sel, ok := c.Fun.(*ast.SelectorExpr); ok && strings.HasPrefix(sel.Sel.Name, "Set") {
 				if id, ok := sel.X.(*ast.Ident); ok {
@@ -668,6 +838,16 @@ func (t *tr) block(stmts []ast.Stmt, k cont) string {
 		}
 		return t.bad("expression statement", x)
 	case *ast.AssignStmt:
+		for _, lhs := range x.Lhs {
+			if id, ok := lhs.(*ast.Ident); ok && id.Name != "_" {
+				if x.Tok == token.DEFINE {
+					t.declared[id.Name] = true
+				} else if !t.declared[id.Name] {
+					// the functional reading (`let`) is only sound for variables owned by this call
+					return t.bad("assignment to a variable declared outside the function", x)
+				}
+			}
+		}
 		// x, ok := e.(T)   type assertion: the model value carries a flag `is_T`
 		if len(x.Lhs) == 2 && len(x.Rhs) == 1 {
 			if ta, ok := x.Rhs[0].(*ast.TypeAssertExpr); ok && ta.Type != nil {
@@ -728,8 +908,9 @@ func (t *tr) block(stmts []ast.Stmt, k cont) string {
 					t.errInScope = true
 					errBranch := t.block(ifs.Body.List, cont)
 					t.errInScope = saved
+					zb := t.zeroBind(ifs.Body, exprString(x.Lhs[0]))
 					t.indent--
-					return "(match " + t.expr(call) + " with\n" + t.pad() + "| .error err => " + errBranch + "\n" + t.pad() + "| .ok " + t.okPattern(call, v) + " =>\n" + t.pad() + cont() + ")"
+					return "(match " + t.expr(call) + " with\n" + t.pad() + "| " + t.wpat(call, ".error err") + " => " + zb + errBranch + "\n" + t.pad() + "| " + t.wpat(call, ".ok "+t.okPattern(call, v)) + " =>\n" + t.pad() + cont() + ")"
 				}
 			}
 			return t.bad("two-value assignment without error check", x)
@@ -749,7 +930,35 @@ func (t *tr) block(stmts []ast.Stmt, k cont) string {
 				errBranch := t.block(ifs.Body.List, cont)
 				t.errInScope = saved
 				t.indent--
-				return "(match " + t.expr(x.Rhs[0]) + " with\n" + t.pad() + "| .error err => " + errBranch + "\n" + t.pad() + "| .ok " + t.okPattern(x.Rhs[0], "_") + " =>\n" + t.pad() + cont() + ")"
+				return "(match " + t.expr(x.Rhs[0]) + " with\n" + t.pad() + "| " + t.wpat(x.Rhs[0], ".error err") + " => " + errBranch + "\n" + t.pad() + "| " + t.wpat(x.Rhs[0], ".ok "+t.okPattern(x.Rhs[0], "_")) + " =>\n" + t.pad() + cont() + ")"
+			}
+		}
+		// x := make([]T, len(xs)); for i, p := range xs { x[i] = T(p) }     ->  let x := Go.mapList xs (fun p => p)
+		if len(x.Lhs) == 1 && len(x.Rhs) == 1 && len(stmts) > 1 {
+			if src, v, conv, ok := t.convertLoop(x, stmts[1]); ok {
+				name := exprString(x.Lhs[0])
+				t.fresh[name] = true
+				return "let " + t.ident(name) + " := (Go.mapList " + src + " (fun " + v + " => " + conv + "));\n" + t.pad() + t.block(stmts[2:], k)
+			}
+		}
+		if len(x.Lhs) == 1 && len(x.Rhs) == 1 {
+			if id, ok := x.Lhs[0].(*ast.Ident); ok {
+				// ownership of slice variables (see `append`)
+				switch rhs := x.Rhs[0].(type) {
+				case *ast.CompositeLit:
+					t.fresh[id.Name] = true
+				case *ast.CallExpr:
+					fn := exprString(rhs.Fun)
+					if fn == "make" {
+						t.fresh[id.Name] = true
+					} else if fn == "append" && len(rhs.Args) > 0 && exprString(rhs.Args[0]) == id.Name {
+						// x = append(x, ...) keeps what x was
+					} else {
+						delete(t.fresh, id.Name)
+					}
+				default:
+					delete(t.fresh, id.Name)
+				}
 			}
 		}
 		if len(x.Lhs) == 1 && len(x.Rhs) == 1 {
@@ -762,6 +971,15 @@ func (t *tr) block(stmts []ast.Stmt, k cont) string {
 			}
 			if c, ok := x.Rhs[0].(*ast.CallExpr); ok && exprString(c.Fun) == "new" {
 				return rest() // pure allocation of an out-parameter target
+			}
+			if c, ok := x.Rhs[0].(*ast.CallExpr); ok && exprString(c.Fun) == "make" {
+				// make([]T, 0) / make([]T, 0, n): the empty slice; any other length would need its elements
+				if _, isSlice := c.Args[0].(*ast.ArrayType); isSlice && len(c.Args) >= 2 {
+					if lit, isLit := c.Args[1].(*ast.BasicLit); isLit && lit.Value == "0" {
+						return "let " + t.ident(exprString(x.Lhs[0])) + " := [];\n" + t.pad() + rest()
+					}
+				}
+				return t.bad("make", x)
 			}
 			return "let " + t.ident(exprString(x.Lhs[0])) + " := " + t.expr(x.Rhs[0]) + ";\n" + t.pad() + rest()
 		}
@@ -791,7 +1009,17 @@ func (t *tr) block(stmts []ast.Stmt, k cont) string {
 					okBranch = t.elseBranch(x.Else, cont)
 				}
 				t.indent--
-				return "(match " + t.expr(as.Rhs[0]) + " with\n" + t.pad() + "| .error err => " + errBranch + "\n" + t.pad() + "| .ok " + t.okPattern(as.Rhs[0], "_") + " =>\n" + t.pad() + okBranch + ")"
+				return "(match " + t.expr(as.Rhs[0]) + " with\n" + t.pad() + "| " + t.wpat(as.Rhs[0], ".error err") + " => " + errBranch + "\n" + t.pad() + "| " + t.wpat(as.Rhs[0], ".ok "+t.okPattern(as.Rhs[0], "_")) + " =>\n" + t.pad() + okBranch + ")"
+			}
+			// if v := e; cond(v) { body }      (v is scoped to the if statement)
+			if ok && len(as.Lhs) == 1 && len(as.Rhs) == 1 && as.Tok == token.DEFINE && exprString(as.Lhs[0]) != "err" && x.Else == nil && !t.isWriterCall(as.Rhs[0]) {
+				if id, isId := as.Lhs[0].(*ast.Ident); isId {
+					bind := "let " + t.ident(id.Name) + " := " + t.expr(as.Rhs[0]) + "; "
+					t.indent++
+					thenB := t.block(x.Body.List, cont)
+					t.indent--
+					return "(if (" + bind + t.expr(x.Cond) + ") then\n" + t.pad() + "  " + bind + thenB + "\n" + t.pad() + "else\n" + t.pad() + cont() + ")"
+				}
 			}
 			return t.bad("if with init", x)
 		}
@@ -820,6 +1048,32 @@ func (t *tr) block(stmts []ast.Stmt, k cont) string {
 		return t.bad("range loop", x)
 	}
 	return t.bad(fmt.Sprintf("statement %T", s), s)
+}
+
+// convertLoop recognises   x := make([]T, len(xs))   followed by   for i, p := range xs { x[i] = F(p) }
+// and returns (xs, p, F(p)).
+func (t *tr) convertLoop(as *ast.AssignStmt, next ast.Stmt) (src, v, conv string, ok bool) {
+	mk, isCall := as.Rhs[0].(*ast.CallExpr)
+	if !isCall || exprString(mk.Fun) != "make" || len(mk.Args) != 2 {
+		return
+	}
+	ln, isLen := mk.Args[1].(*ast.CallExpr)
+	if !isLen || exprString(ln.Fun) != "len" || len(ln.Args) != 1 {
+		return
+	}
+	rg, isRange := next.(*ast.RangeStmt)
+	if !isRange || rg.Key == nil || rg.Value == nil || exprString(rg.X) != exprString(ln.Args[0]) || len(rg.Body.List) != 1 {
+		return
+	}
+	set, isAssign := rg.Body.List[0].(*ast.AssignStmt)
+	if !isAssign || len(set.Lhs) != 1 || len(set.Rhs) != 1 || set.Tok != token.ASSIGN {
+		return
+	}
+	ix, isIx := set.Lhs[0].(*ast.IndexExpr)
+	if !isIx || exprString(ix.X) != exprString(as.Lhs[0]) || exprString(ix.Index) != exprString(rg.Key) {
+		return
+	}
+	return t.expr(rg.X), exprString(rg.Value), t.expr(set.Rhs[0]), true
 }
 
 func (t *tr) elseBranch(e ast.Stmt, cont cont) string {
@@ -908,8 +1162,16 @@ func (t *tr) switchStmt(s *ast.SwitchStmt, cont cont) string {
 
 // translateFunc renders one Lean definition.
 func translateFunc(fset *token.FileSet, fd *ast.FuncDecl, spec *FuncSpec) (string, []string) {
-	t := &tr{spec: spec, fset: fset, indent: 1}
-	body := t.block(fd.Body.List, nil)
+	t := &tr{spec: spec, fset: fset, indent: 1, fresh: map[string]bool{}, declared: map[string]bool{}}
+	t.declareFields(fd.Recv)
+	t.declareFields(fd.Type.Params)
+	t.declareFields(fd.Type.Results)
+	var k cont
+	if spec.Ret == RetVoid && spec.Writer != "" {
+		w := spec.Writer
+		k = func() string { return w } // a void writer function may fall off its end
+	}
+	body := t.block(fd.Body.List, k)
 	var rt string
 	switch spec.Ret {
 	case RetErr:
@@ -919,8 +1181,18 @@ func translateFunc(fset *token.FileSet, fd *ast.FuncDecl, spec *FuncSpec) (strin
 		}
 	case RetValErr:
 		rt = "Go.R " + spec.RetType
+	case RetVoid, RetHandler:
+		rt = ""
 	default:
 		rt = spec.RetType
+	}
+	if spec.Writer != "" {
+		wt := spec.RetType // for writer functions RetType of void kinds names the writer type
+		if spec.Ret == RetVoid || spec.Ret == RetHandler {
+			rt = wt
+		} else {
+			rt = "(World × " + rt + ")"
+		}
 	}
 	pos := fset.Position(fd.Pos())
 	var b strings.Builder
